@@ -52,6 +52,29 @@ def run(chk: core.Check):
                 chk.fail(f"{failed} failed/errored scenarios reported with max_failures={sc['maxf']}", sc)
     chk.stages["forced_schedules"] = {"runs": len(records), "over_limit": over}
 
+    # targeted search: several failing operations finish while the consumer is late, so their ScenarioFinished events are adjacent in the queue
+    from harness.sched import run_forced
+
+    n_t = 3 * (10 if chk.broken else 1)
+    found = 0
+    for k in range(n_t):
+        workers = rng.choice([2, 2, 3])
+        n_ops = rng.randint(workers, workers + 2)
+        kinds = ["fail"] * n_ops
+        maxf = rng.choice([1, 1, 2])
+        sched = []
+        for _ in range(rng.randint(20, 40)):
+            sched.append(f"W{rng.randrange(workers)}")
+        sched += [f"W{i}" for i in range(workers)] * 12 + ["C"] * 30
+        sc = {"kinds": kinds, "workers": workers, "cof": False, "maxf": maxf, "max_examples": 1, "schedule": sched}
+        r = run_forced(U.schema_with_ops(n_ops), U.make_responder(kinds), sched, workers=workers, max_examples=1, max_failures=maxf)
+        failed = sum(1 for e in r["events"] if event_kind(e) == "ScenarioFinished" and e.status.name in ("FAILURE", "ERROR"))
+        chk.seen({"targeted": sc}, True)
+        if failed > maxf:
+            found += 1
+            chk.fail(f"{failed} failed/errored scenarios reported with max_failures={maxf}", sc)
+    chk.stages["targeted_limit_search"] = {"runs": n_t, "over_limit": found}
+
     free = free_runs(chk, (10 if quick else 120) * (10 if chk.broken else 1))
     chk.stages["free_runs"] = free
     for f in chk.findings:
